@@ -411,6 +411,8 @@ def c08_7(ctx):
             if 'contained_labels' in s:
                 # T branch: some side contains labels (clause is a disjunction); F branch: neither (two unit clauses)
                 under_labels = len(c) > 1
+                if under_labels and not all('contained_labels' in describe_facts([frozenset([l_])]) for l_ in c):
+                    under_labels = 'labels or something else: ' + s      # text comparison is for sides with labels only
         kinds[(unparse(n.targets[0]), under_labels)] = unparse(n.value)
     ok = kinds.get(('lhs_value', True)) == 'lhs_resolved' and kinds.get(('rhs_value', True)) == 'rhs_resolved' and \
         'get_value' in kinds.get(('lhs_value', False), '') and 'get_value' in kinds.get(('rhs_value', False), '')
@@ -593,7 +595,28 @@ def c08_keyword_spacing(ctx):
     c18_2(ctx)
 
 
-RULES = [c08_1, c08_2, c08_3, c08_6, c08_7, mute_state, c08_state, c08_latch, c08_openers, c08_numeric, c08_per_file, c08_keyword_spacing]
+def c08_dispatch(ctx):
+    """A conditional directive acts on the chain whether or not the branch it stands in is selected (that is how the chain of an
+    unselected branch is closed, and how a nested chain is kept apart from the enclosing one): the way from a `#` line to the
+    ConditionLine construction does not ask about the current activity, and its only text tests are the directive prefixes."""
+    ctx.rule('C08.10', 'conditional directives reach the condition stack whatever the current activity', 2)
+    pl = ctx.repo.func('bespokeasm.assembler.line_object.factory.LineOjectFactory.parse_line')
+    fac = ctx.repo.func(FACT)
+    sites = [(pl, c) for c in walk_no_nested(pl.node) if isinstance(c, ast.Call) and unparse(c.func).split('.')[-2:] == ['PreprocessorLineFactory', 'parse_line']]
+    sites += [(fac, c) for c in walk_no_nested(fac.node) if isinstance(c, ast.Call) and unparse(c.func) == 'ConditionLine']
+    if len(sites) < 2:
+        raise AnalysisError('the directive dispatch (LineOjectFactory.parse_line -> PreprocessorLineFactory.parse_line -> ConditionLine) is not found')
+    for fn, c in sites:
+        res = resolver(ctx, fn, inline=False)
+        cl = facts_at(ctx, fn, c, res)
+        s = describe_facts(cl)
+        bad = [w for w in ('currently_active', 'is_muted', 'condition_stack', '_stack') if w in s]
+        ctx.check(not bad, f'dispatch:{unparse(c.func).split(".")[-1] if unparse(c.func) != "ConditionLine" else "ConditionLine"}', fn.site(c),
+                  'a conditional directive is handed to the condition stack under tests of its text only, never of the current activity',
+                  f'reached under: {s[:300]} - inside an unselected branch some spellings of #if/#elif/#else/#endif no longer act on the chain')
+
+
+RULES = [c08_dispatch, c08_1, c08_2, c08_3, c08_6, c08_7, mute_state, c08_state, c08_latch, c08_openers, c08_numeric, c08_per_file, c08_keyword_spacing]
 
 _CSF = 'assembler/preprocessor/condition_stack.py'
 _CF = 'assembler/preprocessor/condition.py'
